@@ -147,3 +147,44 @@ def evidence(pid, tier, seed, recs, n_obl, n_dis, bounded, n_viol, n_known, note
     return dict(property_id=pid, tier=tier if tier in ('quick', 'thorough') else 'quick', seed=seed, level='other',
                 coverage=cov, assumptions=ASSUMPTIONS + STANDING + (bounded.get('assumptions', []) if bounded else []),
                 wall_s=round(wall, 2), violations=n_viol)
+
+
+import re as _re, tempfile as _tempfile
+_ANSI = _re.compile(r'\x1b\[[0-9;]*m')
+
+
+def run_cli(src, args, timeout=120, env=None, suffix='.prob'):
+    """Run the REAL command line (polar.py) on a source text; returns (status, stdout, stderr)."""
+    e = dict(os.environ); e['PYTHONPATH'] = REPO; e.setdefault('PYTHONHASHSEED', '0')
+    e['MPLBACKEND'] = 'Agg'
+    if env: e.update(env)
+    with _tempfile.NamedTemporaryFile('w', suffix=suffix, delete=False, dir=_tempfile.gettempdir()) as f:
+        f.write(src); path = f.name
+    try:
+        p = subprocess.run([VENV_PY, os.path.join(REPO, 'polar.py'), path] + list(args), capture_output=True, text=True, timeout=timeout, env=e, cwd=REPO)
+        return ('ok' if p.returncode == 0 else 'error'), _ANSI.sub('', p.stdout), _ANSI.sub('', p.stderr)
+    except subprocess.TimeoutExpired:
+        return 'timeout', '', ''
+    finally:
+        os.unlink(path)
+
+
+def parse_printed(text):
+    """'v0; v1; general' as printed by prettify_piecewise -> (list of special values, general expr) as sympy objects"""
+    import sympy as sp
+    parts = [p.strip() for p in text.split(';')]
+    n = sp.Symbol('n', integer=True)
+
+    def px(s):
+        names = set(_re.findall(r'[A-Za-z_][A-Za-z_0-9]*', s)) - {'sqrt', 'I', 'exp', 'sin', 'cos', 'pi', 'E', 'oo', 'zoo', 'nan', 'erf', 'erfinv', 'log', 'Abs', 'Piecewise', 'binomial', 'factorial', 'gamma', 're', 'im'}
+        loc = {nm: sp.Symbol(nm) for nm in names}
+        loc['n'] = n
+        return sp.sympify(s, locals=loc)
+    vals = [px(p) for p in parts]
+    return vals[:-1], vals[-1]
+
+
+def printed_at(specials, general, k):
+    import sympy as sp
+    if k < len(specials): return specials[k]
+    return general.xreplace({sp.Symbol('n', integer=True): sp.Integer(k)})
